@@ -576,17 +576,12 @@ mod request {
                 return Err(Error::NoPath);
             }
 
-            let host = if let Some(host) = parsed
+            let host = parsed
                 .headers_ref()
                 .and_then(|headers| headers.get(header::HOST).map(HeaderValue::as_bytes))
-                .or(default_host)
-            {
-                host
-            } else {
-                return Err(Error::NoHost);
-            };
+                .or(default_host);
 
-            let uri = {
+            let uri = if let Some(host) = host {
                 let mut uri = BytesMut::with_capacity(
                     scheme.len() + 3 + host.len() + (path_end - path_start),
                 );
@@ -596,6 +591,13 @@ mod request {
                 uri.extend(host);
                 uri.extend(&buffer[path_start..path_end]);
                 uri.freeze()
+            } else if buffer[path_start] == b'/' {
+                // A request without a `host` header (the usual HTTP/1.0 request) is still a request:
+                // an origin-form target is a URI by itself. The host is then chosen by the SNI
+                // hostname, or the request is refused with 409 Conflict.
+                buffer.slice(path_start..path_end)
+            } else {
+                return Err(Error::NoHost);
             };
 
             match parsed
